@@ -204,6 +204,83 @@ fn tos_case(cfgs: &[Cfg], targets: &[char], placement: usize) -> Option<String> 
     }
 }
 
+// ---------------------------------------------------------------- C11: definition order vs references (independent oracle)
+fn type_mentions(t: &typeshare_core::rust_types::RustType, out: &mut Vec<String>) {
+    use typeshare_core::rust_types::{RustType, SpecialRustType};
+    match t {
+        RustType::Simple { id } => out.push(id.clone()),
+        RustType::Generic { id, parameters } => { out.push(id.clone()); for p in parameters { type_mentions(p, out); } }
+        RustType::Special(sp) => match sp {
+            SpecialRustType::Vec(a) | SpecialRustType::Array(a, _) | SpecialRustType::Slice(a) | SpecialRustType::Option(a) => type_mentions(a, out),
+            SpecialRustType::HashMap(a, b) => { type_mentions(a, out); type_mentions(b, out); }
+            _ => {}
+        },
+    }
+}
+/// (name, names it refers to) for every item of the parsed file - read off the IR, independent of topsort.rs
+fn item_refs(d: &ParsedData) -> Vec<(String, Vec<String>)> {
+    use typeshare_core::rust_types::{RustEnumVariant};
+    let mut v = vec![];
+    for s in &d.structs { let mut m = vec![]; for f in &s.fields { type_mentions(&f.ty, &mut m); } v.push((s.id.renamed.clone(), m)); }
+    for a in &d.aliases { let mut m = vec![]; type_mentions(&a.r#type, &mut m); v.push((a.id.renamed.clone(), m)); }
+    for c in &d.consts { let mut m = vec![]; type_mentions(&c.r#type, &mut m); v.push((c.id.renamed.clone(), m)); }
+    for e in &d.enums { let mut m = vec![]; for var in &e.shared().variants { match var {
+        RustEnumVariant::Unit(_) => {}, RustEnumVariant::Tuple { ty, .. } => type_mentions(ty, &mut m),
+        RustEnumVariant::AnonymousStruct { fields, .. } => for f in fields { type_mentions(&f.ty, &mut m); }, _ => {} } }
+        v.push((e.shared().id.renamed.clone(), m)); }
+    v
+}
+/// -> Some(description) when a definition is missing/duplicated, or (acyclic reference graph) precedes one it refers to
+fn order_case(src: &str) -> Option<String> {
+    use std::collections::{BTreeMap, HashMap};
+    use typeshare_core::language::{Language, TypeScript};
+    let d = match parse_named(src, "f.rs") { Some(d) => d, None => return Some("no parsed data".into()) };
+    if !d.errors.is_empty() { return Some(format!("parse errors: {}", d.errors.len())); }
+    let mut crates: BTreeMap<CrateName, ParsedData> = BTreeMap::new();
+    let cn = d.crate_name.clone();
+    *crates.entry(cn.clone()).or_default() += d;
+    typeshare_core::reconcile::reconcile_aliases(&mut crates);
+    let data = crates.remove(&cn).unwrap();
+    let refs = item_refs(&data);
+    let names: Vec<String> = refs.iter().map(|r| r.0.clone()).collect();
+    let mut out: Vec<u8> = Vec::new();
+    let mut lang = TypeScript { no_version_header: true, ..Default::default() };
+    if let Err(e) = lang.generate_types(&mut out, &HashMap::new(), data) { return Some(format!("generation failed: {}", e)); }
+    let out = String::from_utf8(out).unwrap();
+    let pos = |n: &str| -> Vec<usize> { let mut p = vec![]; for kw in ["interface ", "enum ", "type ", "const "] { for pat in [format!("export {}{} ", kw, n), format!("export {}{}:", kw, n), format!("export {}{}<", kw, n)] { let mut from = 0; while let Some(i) = out[from..].find(&pat) { p.push(from + i); from += i + 1; } } } p.sort(); p.dedup(); p };
+    for n in &names { let c = pos(n).len(); if c == 0 { return Some(format!("definition of {} is missing from the output", n)); } }
+    // acyclic?
+    let idx = |n: &str| names.iter().position(|x| x == n);
+    let mut done = vec![false; names.len()];
+    loop { let mut progress = false; for (i, (_, m)) in refs.iter().enumerate() { if !done[i] && m.iter().all(|d| match idx(d) { Some(j) => j != i && done[j], None => true }) { done[i] = true; progress = true; } } if !progress { break; } }
+    if !done.iter().all(|x| *x) { return None; } // cyclic reference graph: only the permutation guarantee applies
+    for (n, m) in &refs { for dep in m { if dep != n && idx(dep).is_some() { if pos(dep)[0] > pos(n)[0] { return Some(format!("{} is emitted before {} which it refers to", n, dep)); } } } }
+    None
+}
+
+const WRAPPERS: [&str; 10] = ["T", "Vec<T>", "[T; 2]", "&'static [T]", "Option<T>", "HashMap<String, T>", "Wrap<T>", "Wrap<Vec<T>>", "Foreign<T>", "Vec<Option<T>>"];
+const NODES: [&str; 4] = ["Aa", "Bb", "Cc", "Dd"];
+/// program with items Aa..Dd (n of them) whose references are the edges in `code` (bit i*n+j: i refers to j),
+/// every reference wrapped in WRAPPERS[w]; holder: 0 struct field, 1 tuple variants, 2 struct-variant fields, 3 mixed by node
+fn order_program(n: usize, code: u64, w: usize, holder: usize) -> String {
+    let mut src = String::from("#[typeshare]\npub struct Wrap<T> { pub t: T }\n");
+    for i in 0..n {
+        let refs: Vec<String> = (0..n).filter(|j| (code >> (i * n + j)) & 1 == 1).map(|j| WRAPPERS[w].replace("T", NODES[j])).collect();
+        let h = if holder == 3 { i % 3 } else { holder };
+        match h {
+            0 => { src += &format!("#[typeshare]\npub struct {} {{ {} pub own: u32 }}\n", NODES[i], refs.iter().enumerate().map(|(k, r)| format!("pub f{}: {}, ", k, r)).collect::<String>()); }
+            1 => { src += &format!("#[typeshare]\n#[serde(tag = \"t\", content = \"c\")]\npub enum {} {{ {} Own(u32) }}\n", NODES[i], refs.iter().enumerate().map(|(k, r)| format!("V{}({}), ", k, r)).collect::<String>()); }
+            _ => { src += &format!("#[typeshare]\n#[serde(tag = \"t\", content = \"c\")]\npub enum {} {{ S {{ {} own: u32 }}, Own(u32) }}\n", NODES[i], refs.iter().enumerate().map(|(k, r)| format!("f{}: {}, ", k, r)).collect::<String>()); }
+        }
+    }
+    src
+}
+fn dag_acyclic(n: usize, code: u64) -> bool {
+    let mut done = vec![false; n];
+    loop { let mut progress = false; for i in 0..n { if !done[i] && (0..n).all(|j| (code >> (i * n + j)) & 1 == 0 || (j != i && done[j])) { done[i] = true; progress = true; } } if !progress { break; } }
+    done.iter().all(|x| *x)
+}
+
 fn permutations(n: usize) -> Vec<Vec<usize>> {
     if n == 0 { return vec![vec![]]; }
     let mut out = vec![];
@@ -293,6 +370,35 @@ fn main() {
                     if let Some(m) = tos_case(cfgs, ts, p) { report(i, t, p, m); } }
             } }
             println!("no failing input among {} (cfg attribute set, target list, placement) triples: {} attribute sets up to depth 3", tried, all.len());
+            std::process::exit(0);
+        }
+        Some("order") => {
+            // order <file.rs> : exit 1 when (acyclic reference graph) some definition precedes a definition it refers to
+            let src = std::fs::read_to_string(&a[2]).expect("read");
+            let r = panic::catch_unwind(move || order_case(&src));
+            match r { Err(_) => { println!("{{\"file\": {:?}, \"fails\": \"panicked\"}}", a[2]); std::process::exit(1); }
+                Ok(Some(m)) => { println!("{{\"file\": {:?}, \"fails\": {:?}}}", a[2], m); std::process::exit(1); }
+                Ok(None) => { println!("{{\"file\": {:?}, \"ordered\": true}}", a[2]); std::process::exit(0); } }
+        }
+        Some("order-search") | Some("order-check") => {
+            let report = |n: usize, code: u64, w: usize, h: usize, m: String| { println!("WITNESS {{\"input\": {{\"items\": {}, \"edges_code\": {}, \"wrapper\": {}, \"holder\": {}, \"wrapper_text\": {:?}}}, \"fails\": {:?}}}", n, code, w, h, WRAPPERS[w], m); std::process::exit(1); };
+            if a[1] == "order-check" {
+                let (n, code, w, h): (usize, u64, usize, usize) = (a[2].parse().unwrap(), a[3].parse().unwrap(), a[4].parse().unwrap(), a[5].parse().unwrap());
+                let src = order_program(n, code, w, h);
+                if let Ok(Some(m)) = panic::catch_unwind(move || order_case(&src)) { report(n, code, w, h, m); }
+                println!("input passes"); std::process::exit(0);
+            }
+            let mut tried = 0u64;
+            for n in 2..=4usize { for code in 0..(1u64 << (n * n)) {
+                if !dag_acyclic(n, code) { continue; }
+                for w in 0..WRAPPERS.len() { for h in 0..4 {
+                    if n == 4 && h != 0 && h != 3 { continue; }
+                    tried += 1;
+                    let src = order_program(n, code, w, h);
+                    match panic::catch_unwind(move || order_case(&src)) { Ok(None) => {}, Ok(Some(m)) => report(n, code, w, h, m), Err(_) => report(n, code, w, h, "panicked".into()) }
+                } }
+            } }
+            println!("no failing input among {} programs (all DAGs on 2..4 items x 10 reference positions x 4 item shapes)", tried);
             std::process::exit(0);
         }
         _ => { eprintln!("usage: verif-replay rename <rule> <field|variant> <ident>"); std::process::exit(2); }
